@@ -63,12 +63,13 @@ def replay(r):
     if r["kind"] in ("extract", "pvalue", "wrapper"):
         mn, mx, fl = r["min_len"], r["max_len"], r["flanks"]
         thr = 0.05
-        for seed in range(6):
+        for seed in range(24):
             g = np.random.RandomState(seed)
             X = g.normal(0, 0.05, size=(3, 60))
-            w = max(mn + 1, min(mx - 1, 6))
-            X[0, 1:1 + w] += 3.0              # bump adjacent to position 0
-            X[1, 60 - w - 1:59] += 3.0        # bump adjacent to the end
+            w = max(mn + 1, min(mx - 1, 6)) if seed < 6 else mn + (seed % (mx - mn + 2))
+            gap = 1 if seed < 6 else (seed // 6)          # distance of the bumps from the two ends of the example: 1, 1, 2, 3
+            X[0, gap:gap + w] += 3.0              # bump next to position 0
+            X[1, 60 - w - gap:60 - gap] += 3.0    # bump next to the end
             X[2, 25:25 + w] -= 3.0
             try:
                 df = rs.recursive_seqlets(torch.from_numpy(X), threshold=thr, min_seqlet_len=mn, max_seqlet_len=mx, additional_flanks=fl)
@@ -344,6 +345,10 @@ def configs(tier):
         for fl in ((0, 1) if q else (0, 1, 2)):
             cf.append(dict(kind="extract", min_len=mn, max_len=mx, flanks=fl, l=l))
         cf.append(dict(kind="pvalue", min_len=mn, max_len=mx, flanks=0, l=l))
+    # flanks wider than the shortest seqlet: the flank-extended span has to be clipped at both ends of the example
+    cf.append(dict(kind="extract", min_len=2, max_len=3, flanks=4, l=6))
+    if not q:
+        cf.append(dict(kind="extract", min_len=2, max_len=4, flanks=5, l=7))
     cf.append(dict(kind="wrapper", n=3))
     cf.append(dict(kind="prefix", l=4))
     for (ws, fl, L, B) in ([(2, 1, 7, 1), (3, 0, 6, 1), (1, 0, 3, 2), (2, 0, 7, 1)] if q else [(2, 1, 7, 1), (3, 0, 6, 1), (1, 0, 3, 2), (2, 0, 7, 1), (1, 1, 5, 2), (3, 1, 9, 1), (2, 2, 9, 1)]):
